@@ -23,6 +23,7 @@ type Engine struct {
 	contracts map[string]*Contract
 	macros    map[string]*Macro
 	ghosts    map[string]*GhostDecl
+	tables      map[string]string // pkg.var -> spec function giving every entry (proved by ground obligations)
 	globalFacts []GlobalFact
 	axioms      []GlobalFact
 	goarch    string
@@ -32,7 +33,7 @@ type Engine struct {
 }
 
 func NewEngine(repo, goarch string, tags string) (*Engine, error) {
-	eng := &Engine{funcs: map[string]*FuncInfo{}, contracts: map[string]*Contract{}, macros: map[string]*Macro{}, ghosts: map[string]*GhostDecl{}, goarch: goarch, timeoutS: 30, lemmaMemo: map[string]bool{}}
+	eng := &Engine{funcs: map[string]*FuncInfo{}, contracts: map[string]*Contract{}, macros: map[string]*Macro{}, ghosts: map[string]*GhostDecl{}, tables: map[string]string{}, goarch: goarch, timeoutS: 30, lemmaMemo: map[string]bool{}}
 	env := append(os.Environ(), "GOFLAGS=-mod=mod", "GOPROXY=off", "GOSUMDB=off", "GOTOOLCHAIN=local")
 	if goarch != "" {
 		env = append(env, "GOARCH="+goarch)
@@ -829,6 +830,12 @@ func (ex *exec) runCase(fi *FuncInfo, ct *Contract, ac aliasCase) {
 		vals[v.Name()] = val
 		ex.declare(st, v, val)
 		fr.params[v.Name()] = val
+		if sl, ok := val.(*Slice); ok && sl.Base.Obj != nil {
+			if ex.paramSlices == nil {
+				ex.paramSlices = map[*Obj]*Slice{}
+			}
+			ex.paramSlices[sl.Base.Obj] = sl
+		}
 	}
 	if fi.Decl.Recv != nil && len(fi.Decl.Recv.List) > 0 && len(fi.Decl.Recv.List[0].Names) > 0 {
 		bind(info.Defs[fi.Decl.Recv.List[0].Names[0]].(*types.Var))
@@ -1164,7 +1171,18 @@ func (ex *exec) checkFrame(st *State, fi *FuncInfo, ct *Contract, fr *frame, ext
 			continue
 		}
 		var g *Term
-		if len(ranges) > 0 {
+		if ps, isParam := ex.paramSlices[o]; isParam && len(ranges) == 0 {
+			// a slice argument: only its bytes [0:len) are protected, not the spare capacity
+			ea, ok1 := expect.(*Term)
+			aa, ok2 := after.(*Term)
+			if ok1 && ok2 {
+				j := BoundVar(fmt.Sprintf("j!f%d", boundCounter()), ex.idxSort())
+				in := And(ex.le(ps.Off, j), ex.lt(j, ex.add(ps.Off, ps.Len)))
+				g = Forall([]*Term{j}, Implies(in, Eq(Select(ea, j), Select(aa, j))))
+			} else {
+				g = valueEqTerm(expect, after)
+			}
+		} else if len(ranges) > 0 {
 			ea, ok1 := expect.(*Term)
 			aa, ok2 := after.(*Term)
 			if !ok1 || !ok2 {
